@@ -77,4 +77,14 @@ SPECS = {
         "info_meaning": "[reads of corrupted views; reads compared with the reader model]",
         "assumptions": ["corruptions are single points (and seeded pairs) applied to arrays the writer produced; lengths are only changed by small amounts so that every row can be read", "fixed-size list positions idx*n are computed without overflow in the model (usize overflow needs a view whose declared length exceeds 2^32 rows)", "reads go through deserialize_any; typed requests share the same accessors (ViewAccess::get, offsets, bitset_is_set)"],
     },
+    "C07": {
+        "id": "C07", "runners": ["RunC07"],
+        "info_meaning": "[cases compared with the tracer model; cases whose tracing succeeded]",
+        "assumptions": ["strings are classified for guess_dates by the in-crate matchers (modelled); strategies of sampled leaves are always absent", "schema equality in the order law is up to the order of struct fields that are not map-sorted (first-seen order is allowed by the property)"],
+    },
+    "C06": {
+        "id": "C06", "runners": ["RunC01"],
+        "info_meaning": "[cases whose traced schema is inside the builder model; cases fully judged by decode = interp]",
+        "assumptions": ["documented exclusions are not counted: sample strings that only look like dates under guess_dates, unsigned values above the signed 64-bit range mixed with signed numbers under coerce_numbers, null for an enum-typed position", "the tracer model itself is compared with the crate in the C07/C08 runs (RunC07)"],
+    },
 }
